@@ -214,14 +214,16 @@ func readKnown(path string) []knownFinding {
 			kf.Fails = strings.Trim(strings.TrimSpace(rest[i+len(" fails="):]), `"`)
 			rest = rest[:i]
 		}
+		if i := strings.Index(rest, " construct="); i >= 0 {
+			kf.Construct = strings.TrimSpace(rest[i+len(" construct="):])
+			rest = rest[:i]
+		}
 		for _, f := range strings.Fields(rest) {
 			switch {
 			case strings.HasPrefix(f, "property="):
 				kf.Prop = f[len("property="):]
 			case strings.HasPrefix(f, "rule="):
 				kf.Rule = f[len("rule="):]
-			case strings.HasPrefix(f, "construct="):
-				kf.Construct = f[len("construct="):]
 			}
 		}
 		out = append(out, kf)
